@@ -6,7 +6,7 @@ from props import nutslib as N
 
 ID = "C04"
 LEVEL = "proof"
-COQ_HEADER = "From MiniMcmc Require Import Model.DualAvg."
+COQ_HEADER = "From MiniMcmc Require Import Model.DualAvg Model.FindEps."
 RULE = ("real NUTSChain runs (Gaussians dim 1..6, DiffableGaussian2D, Rosenbrock2D; target acceptance in (0.5,0.99); warm-up 0..300 "
         "quick / ..2000 thorough; f32 and f64; one to three consecutive run() calls on one chain): after every transition the "
         "adaptation state (m, eps, eps_bar, h_bar, mu) read through the adapt_state hook; one-step check: from the emitted previous "
@@ -55,11 +55,58 @@ def generate(rng, tier):
         cases.append({"op": "transitions", "f": f, "target": tg, "init": [fb(round(rng.uniform(-1, 1), 2)) for _ in range(d)],
                       "accept": rng.choice([0.55, 0.65, 0.8, 0.9, 0.95, 0.98]), "seed": str(rng.getrandbits(64)),
                       "runs": runs, "events_filter": "stepend"})
+    # find_reasonable_epsilon on Gaussian targets with dyadic precision matrices
+    for _ in range(40 if tier == "quick" else 400):
+        f = rng.choice(["f32", "f64"])
+        d = rng.randint(1, 4)
+        A = [[0.0] * d for _ in range(d)]
+        for i in range(d):
+            A[i][i] = rng.choice([0.25, 1.0, 4.0, 16.0, 64.0, 0.0625])
+            if i + 1 < d and rng.random() < 0.5:
+                A[i][i + 1] = A[i + 1][i] = 0.125 * rng.choice([-1, 1])
+        cases.append({"op": "find_eps", "f": f, "target": {"kind": "gaussprec", "d": d, "prec": [fb(A[i][j]) for i in range(d) for j in range(d)]},
+                      "position": [fb(rng.choice([-2.0, -0.5, 0.0, 0.25, 1.0, 3.0])) for _ in range(d)],
+                      "momentum": [fb(rng.choice([-1.5, -0.5, 0.5, 1.0, 2.0])) for _ in range(d)]})
     return cases
 
 
 def run_impl(cases):
     return C.run_isolated("C04", cases, watchdog_s=150, mem_gb=6)
+
+
+LN_HALF = math.log(0.5)
+
+
+def find_eps_exact(case):
+    """find_reasonable_epsilon in exact rational arithmetic; returns (eps, smallest |lap - ln 1/2| met)"""
+    d = case["target"]["d"]
+    A = [[Fraction(N.bf(case["target"]["prec"][i * d + j])) for j in range(d)] for i in range(d)]
+    x = [Fraction(N.bf(b)) for b in case["position"]]
+    p = [Fraction(N.bf(b)) for b in case["momentum"]]
+
+    def logp(v):
+        return -sum(v[i] * A[i][j] * v[j] for i in range(d) for j in range(d)) / 2
+
+    def grad(v):
+        return [-sum((A[i][j] + A[j][i]) * v[j] for j in range(d)) / 2 for i in range(d)]
+
+    def lap(e):
+        p1 = [pi + e / 2 * g for pi, g in zip(p, grad(x))]
+        x1 = [xi + e * pi for xi, pi in zip(x, p1)]
+        p2 = [pi + e / 2 * g for pi, g in zip(p1, grad(x1))]
+        return float(logp(x1) - logp(x) - (sum(q * q for q in p2) - sum(q * q for q in p)) / 2)
+    margin = math.inf
+    l = lap(Fraction(1))
+    margin = min(margin, abs(l - LN_HALF))
+    up = l > LN_HALF
+    eps = Fraction(1, 2)
+    for _ in range(60):
+        if not ((l > LN_HALF) if up else (l < LN_HALF)):
+            return eps, margin
+        eps = eps * 2 if up else eps / 2
+        l = lap(eps)
+        margin = min(margin, abs(l - LN_HALF))
+    return None, margin
 
 
 def tround(f, x):
@@ -109,6 +156,11 @@ def sel(case, out):
 def coq_term(case, out):
     if "panic" in out or "timeout" in out or "crash" in out:
         return None
+    if case["op"] == "find_eps":
+        d = case["target"]["d"]
+        q = lambda b: N.dy(N.bf(b))
+        A = "[" + "; ".join("[" + "; ".join(q(case["target"]["prec"][i * d + j]) for j in range(d)) + "]" for i in range(d)) + "]"
+        return "find_eps_eval %s [%s] [%s]" % (A, "; ".join(q(b) for b in case["position"]), "; ".join(q(b) for b in case["momentum"]))
     ss, pick = sel(case, out)
     delta, gamma, kappa = consts(case)
     parts = []
@@ -157,6 +209,15 @@ def compare(case, out, model):
         return "implementation panicked: " + out["panic"]
     if model is None:
         return None
+    if case["op"] == "find_eps":
+        lo = Fraction(model[0], model[1])
+        hi = Fraction(model[2], model[3])
+        _, margin = find_eps_exact(case)
+        if lo != hi or margin < 1e-3:
+            return None          # a test within rounding of ln(1/2): ambiguous, skipped
+        if Fraction(N.bf(out["eps"])) != lo:
+            return "find_reasonable_epsilon returned %r, model find_eps_gen gives %s" % (N.bf(out["eps"]), float(lo))
+        return None
     ss, pick = sel(case, out)
     pos = 0
     for i in pick:
@@ -192,6 +253,16 @@ def oracle(case, out):
         return "NUTS run did not finish: %s" % out
     if "panic" in out:
         return "NUTS run panicked: " + out["panic"]
+    if case["op"] == "find_eps":
+        eps, margin = find_eps_exact(case)
+        got = N.bf(out["eps"])
+        if not (got > 0 and math.isfinite(got)):
+            return "initial step size %r" % got
+        if eps is not None and margin >= 1e-3 and Fraction(got) != eps:
+            return ("find_reasonable_epsilon from position %s, momentum %s: returned %r; doubling/halving from 1/2 until the "
+                    "acceptance probability of one leapfrog step crosses 1/2 gives %s" % (
+                        [N.bf(b) for b in case["position"]], [N.bf(b) for b in case["momentum"]], got, float(eps)))
+        return None
     f = case["f"]
     delta, gamma, kappa = consts(case)
     ulp = 2.0 ** -23 if f == "f32" else 2.0 ** -52
@@ -244,6 +315,8 @@ def finding_class(case, out, d):
 
 
 def nontrivial(case, out):
+    if case["op"] == "find_eps":
+        return True
     if "runs" not in out:
         return False
     if len(case["runs"]) >= 2:
@@ -255,16 +328,23 @@ def nontrivial(case, out):
 def extra(cases, outs, model):
     warm = post = 0
     for c, o in zip(cases, outs):
+        if c["op"] == "find_eps":
+            continue
         for (nd, p, a, na, s) in steps(c, o):
             if s[0] <= nd:
                 warm += 1
             else:
                 post += 1
     return {"warmup_transitions": warm, "post_warmup_transitions": post,
-            "interval_checked": sum(len(sel(c, o)[1]) for c, o in zip(cases, outs)),
-            "multi_run_cases": sum(1 for c in cases if len(c["runs"]) >= 2)}
+            "interval_checked": sum(len(sel(c, o)[1]) for c, o in zip(cases, outs) if c["op"] != "find_eps"),
+            "multi_run_cases": sum(1 for c in cases if c["op"] != "find_eps" and len(c["runs"]) >= 2),
+            "find_eps_cases": sum(1 for c in cases if c["op"] == "find_eps"),
+            "find_eps_values": sorted({N.bf(o["eps"]) for c, o in zip(cases, outs) if c["op"] == "find_eps" and "eps" in o})}
 
 
 def corrupt(model):
-    """interval bounds are encoded [sign, mantissa, exponent] x 2: shift every exponent by 3 (value x 8)"""
+    """interval bounds are encoded [sign, mantissa, exponent] x 2: shift every exponent by 3 (value x 8);
+    find_eps outputs (4 numbers: two rationals) get their numerators tripled"""
+    if len(model) == 4:
+        return [model[0] * 3, model[1], model[2] * 3, model[3]]
     return [x + 3 if i % 3 == 2 else x for i, x in enumerate(model)]
